@@ -38,3 +38,8 @@ PROP = dict(
     assumptions=["sort.Slice returns a sorted permutation", "CIDs are opaque keys: a getter may return any frame for a CID",
                  "payloads carry the checksum and frame count for the fault statements"],
 )
+
+# GoLite (DESIGN.md section 10a)
+PROP["technique"] += " + ipldbindcode.VerifyHash translated on every run (GoLite) and proved equal to the model's verify_hash"
+PROP["level_text"] += "; VerifyHash is translated from the Go source on every run and proved to be the model's verify_hash (C14_translated_VerifyHash_is_verify_hash)"
+PROP["trusted"] = ['translator gen/golite.go (Go leaf functions -> terms of the GoLite fragment, re-run on every check) and the semantics coq/GoLite.v (fixed-width wrap-around, panics on bad index / slice / shift / division, fuel for loops and calls; capacity identified with length; out-parameters for slices written through; aliasing of two arguments not detected) - DESIGN.md section 10a; exercised by the vm_compute examples of the property file'] + list(PROP.get("trusted", []))
